@@ -42,6 +42,11 @@ for name, md in (("mti", MTI), ("enum", ENUM), ("coll", COLL), ("newcoll", NEWCO
 OPS["ok_plain"] = (q([], GOOD_BODY), True)
 OPS["fail_plain"] = (q([], BAD_BODY), False)
 OPS["fail_badmd"] = (q([MTI, {"metadata_type": "no_such"}], GOOD_BODY), False)
+# a declaration followed / preceded by a refused block, in both attachment orders (whichever is processed first)
+OPS["fail_badmd_rev"] = (q([{"metadata_type": "no_such"}, MTI], GOOD_BODY), False)
+OPS["fail_enum_badmd"] = (q([{"metadata_type": "no_such"}, ENUM, MTI, COLL], GOOD_BODY), False)
+OPS["fail_badkey_after_mti"] = (q([dict(INJECT, no_such_field=["x"]), MTI, ENUM], GOOD_BODY), False)
+OPS["fail_mti_then_badkey"] = (q([MTI, ENUM, dict(INJECT, no_such_field=["x"])], GOOD_BODY), False)
 # failures raised late, in write_cpp_files' dataset lookup, after all metadata has been processed
 OPS["fail_twods"] = (q([MTI, JOB, INJECT, DOCKER], "lambda e: e.Jets('A').Select(lambda j: j.eta() + EventDataset('d2').Count())"), False)
 OPS["fail_nods"] = (q([MTI, JOB, INJECT, DOCKER], GOOD_BODY).replace("EventDataset('ds')", "some_name"), False)
@@ -49,6 +54,19 @@ OPS["fail_nods"] = (q([MTI, JOB, INJECT, DOCKER], GOOD_BODY).replace("EventDatas
 APPLY_ONLY = {"apply_inject": q([INJECT, JOB], GOOD_BODY), "apply_mti": q([MTI, ENUM, DOCKER], GOOD_BODY), "apply_plain": q([], GOOD_BODY)}
 for _k, _src in APPLY_ONLY.items():
     OPS[_k] = (_src, True)
+
+# operations on the CMS backends (each on that backend's own shared / new executor)
+CMS_BODY = "lambda e: e.Muons('m').Select(lambda m: m.pt())"
+CMS_BAD = "lambda e: e.Muons('m').Select(lambda m: m.pt() // 2)"
+OP_BACKEND = {}
+for _b, _short in (("cms_aod", "aod"), ("cms_miniaod", "mini")):
+    OPS[f"ok_{_short}_muons"] = (q([], CMS_BODY), True)
+    OPS[f"fail_{_short}_muons"] = (q([], CMS_BAD), False)
+    OPS[f"apply_{_short}_muons"] = (q([], CMS_BODY), True)
+    APPLY_ONLY[f"apply_{_short}_muons"] = OPS[f"apply_{_short}_muons"][0]
+    for _k in (f"ok_{_short}_muons", f"fail_{_short}_muons", f"apply_{_short}_muons"):
+        OP_BACKEND[_k] = _b
+ATLAS_OPS = [o for o in OPS if o not in OP_BACKEND]
 
 PROBES = {
     "typed_method": q([], "lambda e: e.Jets('A').Select(lambda j: j.pt())"),                      # column type / container type / includes
@@ -70,10 +88,15 @@ WIDE_PROBES = {
     "wide_dict": q([], "lambda e: {" + ", ".join(f"'col{i}': e.Jets('A').Count() * {i + 1}" for i in range(12)) + "}"),
 }
 # probes on the CMS backends (their default method types live in the same process-global registry the ATLAS executor resets)
-XB_PROBES = {"cms_aod_defaults": "cms_aod", "cms_miniaod_defaults": "cms_miniaod"}
+XB_PROBES = {"cms_aod_defaults": "cms_aod", "cms_miniaod_defaults": "cms_miniaod", "cms_aod_two": "cms_aod", "cms_miniaod_two": "cms_miniaod",
+             "cms_miniaod_other_bank": "cms_miniaod"}
 XB_QUERIES = {
     "cms_aod_defaults": q([], "lambda e: e.Muons('m').Select(lambda m: m.globalTrack().pt())"),
     "cms_miniaod_defaults": q([], "lambda e: e.Muons('m').Select(lambda m: m.pt())"),
+    # the collection (and bank) an earlier query of the same executor read, next to another one; the same collection from another bank
+    "cms_aod_two": q([], "lambda e: (e.Muons('m').Count(), e.Tracks('t').Select(lambda x: x.pt()))"),
+    "cms_miniaod_two": q([], "lambda e: (e.Muons('m').Count(), e.Electrons('el').Select(lambda x: x.pt()), e.Muons('m').Select(lambda m: m.eta()))"),
+    "cms_miniaod_other_bank": q([], "lambda e: e.Muons('m2').Select(lambda m: m.pt())"),
 }
 PROBES_ALL = dict(PROBES, **WIDE_PROBES, **XB_QUERIES)
 
@@ -109,19 +132,18 @@ def run_case(case):
     logging.disable(logging.CRITICAL)
     from ..tv.translate import make_executor, parse_query
     history, probe, probe_mode, state_only = case
-    shared = None
+    shared = {}
     trace = []
     # probes of another backend: the executor of that backend is created BEFORE the history (of ATLAS operations) runs
     early = {b: make_executor(b) for b in ("cms_aod", "cms_miniaod")} if probe in XB_PROBES and probe_mode == "early" else {}
 
     def one(src, mode, expect=None, apply_only=False, backend="atlas"):
-        nonlocal shared
         if mode == "early":
             exe = early[backend]
         elif mode == "shared":
-            if shared is None:
-                shared = make_executor("atlas")
-            exe = shared
+            if backend not in shared:
+                shared[backend] = make_executor(backend)
+            exe = shared[backend]
         else:
             exe = make_executor(backend)
         exe.add_extended_md({"docker": DockerSpec()})
@@ -140,7 +162,7 @@ def run_case(case):
             shutil.rmtree(d, ignore_errors=True)
     for opname, mode in history:
         src, expect_ok = OPS[opname]
-        r = one(src, mode, apply_only=opname in APPLY_ONLY)
+        r = one(src, mode, apply_only=opname in APPLY_ONLY, backend=OP_BACKEND.get(opname, "atlas"))
         trace.append((opname, mode, r[0]))
         if (r[0] == "ok") != expect_ok:
             return {"error": f"operation {opname} expected {'success' if expect_ok else 'failure'} but {r[0]}: {r[1:3] if r[0] != 'ok' else ''}", "trace": trace}
@@ -150,10 +172,11 @@ def run_case(case):
         st = {"g_method_type_dict": sorted((k, sorted(v)) for k, v in ctyp.g_method_type_dict.items() if not k.startswith("xAOD::TruthParticle")),
               "g_toplevel_ns": sorted(ctyp.g_toplevel_ns),
               "executor_default_extended_md": sorted((ex.executor.__init__.__defaults__ or ({},))[-1] or {}) if isinstance((ex.executor.__init__.__defaults__ or (None,))[-1], dict) else []}
-        if shared is not None:
-            st.update({"job_option_blocks": [b.name for b in shared._job_option_blocks], "inject_blocks": [b.name for b in shared._inject_blocks],
-                       "extended_md_found": {k: len(v) for k, v in shared._found_extended_md.items() if v},
-                       "method_names": sorted(shared._method_names)})
+        if shared.get("atlas") is not None:
+            sh0 = shared["atlas"]
+            st.update({"job_option_blocks": [b.name for b in sh0._job_option_blocks], "inject_blocks": [b.name for b in sh0._inject_blocks],
+                       "extended_md_found": {k: len(v) for k, v in sh0._found_extended_md.items() if v},
+                       "method_names": sorted(sh0._method_names)})
         return {"state": st, "trace": trace}
     r = one(PROBES_ALL[probe], probe_mode, backend=XB_PROBES.get(probe, "atlas"))
     if r[0] == "ok":
@@ -265,7 +288,7 @@ def semantic_equal(src, files_a, files_b, dm=None, backend="atlas"):
 def main():
     a = parse_args("C07")
     rep = Report("C07", a.tier, a.seed, "translation_validation")
-    ops = list(OPS)
+    ops = list(ATLAS_OPS)
     modes = ("shared", "new")
     hist1 = [[(o, m)] for o in ops for m in modes]
     if a.tier == "quick":
@@ -294,6 +317,15 @@ def main():
         for h in [[("ok_plain", "new")], [("ok_mti", "shared")], [("fail_plain", "new")], [("ok_plain", "new"), ("ok_coll", "new")]]:
             for pm in ("early", "new"):
                 cases.append((h, p, pm, False))
+    # the same backend's executor re-used: the probe reads what an earlier (written / failed / only transformed) query of that
+    # executor object read
+    for short, b in (("aod", "cms_aod"), ("mini", "cms_miniaod")):
+        for p in [x for x, pb in XB_PROBES.items() if pb == b]:
+            for o in (f"ok_{short}_muons", f"fail_{short}_muons", f"apply_{short}_muons"):
+                for om in modes:
+                    for pm in modes:
+                        cases.append(([(o, om)], p, pm, False))
+            cases.append(([(f"ok_{short}_muons", "shared"), (f"ok_{short}_muons", "shared")], p, "shared", False))
     state_cases = [(h, None, None, True) for h in [[]] + hist1]
     t0 = time.time()
     results = fresh_map(cases + state_cases, a.jobs)
@@ -408,7 +440,7 @@ def main():
     sys.exit(rep.finish(cov, [
         "histories longer than 2 operations are covered only by the inductive observation (registries equal to the fresh state after every operation)",
         "declared names are concrete (CrossHair realises hashed dictionary keys, so symbolic names would be enumeration in disguise)",
-        "ATLAS executor only; the registries and reset logic are in common/",
+        "operations and probes on the ATLAS executor, plus repeated queries on re-used CMS AOD / miniAOD executors; the registries and reset logic are in common/",
         "a fresh process is approximated by a freshly forked child of a parent that never ran a translation"]))
 
 
